@@ -23,6 +23,10 @@ Input / history dimensions generated on purpose (audit after round e; each judge
   falls on every axis spelling (0 / -1 / -2 / 1), single-line 2-D arrays, non-contiguous / Fortran / read-only arguments used
   twice in both call orders, idle levels other than 0 (DC baseline), float amplitudes and steps, analog=True on 1-D / either
   axis / float32 / integers.
+Robustness (exit 2 is not a detection): every value that comes back from the real code is read through `cells` / `matrix` / `vec` /
+`pair` / `events3` / `events2` (never through int() / indexing / unpacking of the harness's own): a result of another type, shape or
+dtype, None, NaN / inf, fractions, complex numbers, strings, numbers beyond TLC's integers become readings (99, NOINDEX, [], NOFRONT)
+on which the clause that speaks about them is false; exceptions (SystemExit included) escaping a call are the `Raised:<type>` verdict.
 Left out because the unchanged code does not handle them (reported by the audit, not repaired): an empty sample
 selection and an integer sample on nidq files with analog lines, nidq files with 0 or 2 digital words, index arrays on
 .cbin (mtscomp), unsigned / boolean arrays and lists handed to falls.
@@ -81,6 +85,107 @@ def classes(thr):
 
 def default_thr(thr):
     return list(thr[2:4]) == [6, 5]
+
+
+# ------------------------------------------------------------------------------------------------
+# defensive observation of what the real code hands back.  Nothing it returns may stop the harness: whatever is not what the
+# property promises (None, another shape, NaN / inf, a fraction, a complex number, a string, an object, a number beyond TLC's
+# integers) is recorded as a value on which the clause concerned is false; the harness never does arithmetic on returned values
+# ------------------------------------------------------------------------------------------------
+NOTINT = 99          # reading of a returned value that is not a whole number of moderate size (lines are 0 / 1, fronts +-1..3)
+NOINDEX = -7         # reading of a returned index that is not a whole number of moderate size (no sample, no line)
+LIBEXC = (Exception, SystemExit)      # what a call of the real code may end with instead of returning
+BIG = 2 ** 30
+
+
+def as_array(x):
+    """np.asarray that cannot fail: None if x is None or not array-like (ragged)"""
+    if x is None:
+        return None
+    try:
+        return np.asarray(x)
+    except Exception:
+        return None
+
+
+def cell(v, bad=NOTINT):
+    """one returned value as the integer the specifications speak about, `bad` if it is not one"""
+    if isinstance(v, np.ndarray) and v.ndim == 0:
+        v = v[()]
+    if isinstance(v, (bool, np.bool_)):
+        return int(v)
+    if isinstance(v, (int, np.integer)):
+        return int(v) if -BIG < int(v) < BIG else bad
+    if isinstance(v, (float, np.floating)):
+        return int(v) if np.isfinite(v) and -BIG < v < BIG and v == int(v) else bad
+    if isinstance(v, (complex, np.complexfloating)):
+        return cell(v.real, bad) if v.imag == 0 else bad
+    return bad
+
+
+def cells(x, bad=NOTINT):
+    """a returned array as nested lists of Python ints of the same shape (None if it is not an array)"""
+    a = as_array(x)
+    if a is None:
+        return None
+    k = a.dtype.kind
+    if a.ndim == 1 and a.size <= 64 and k in "biuf":         # the index vectors of short trains: plain Python is quicker
+        if k == "f":
+            return [int(v) if v == v and -BIG < v < BIG and v == int(v) else bad for v in a.tolist()]
+        return [int(v) if -BIG < v < BIG else bad for v in a.tolist()]
+    if k == "O":
+        return np.array([cell(v, bad) for v in a.reshape(-1)], dtype=np.int64).reshape(a.shape).tolist()
+    if k not in "biufc":
+        return np.full(a.shape, bad, dtype=np.int64).tolist()
+    r = a.real if k == "c" else a
+    with np.errstate(all="ignore"):
+        if k == "b":
+            ok = np.ones(a.shape, dtype=bool)
+        elif k in "iu":
+            ok = (r < BIG) & (r > -BIG)
+        else:
+            ok = np.isfinite(r) & (r == np.rint(r)) & (r < BIG) & (r > -BIG)
+        if k == "c":
+            ok = ok & (a.imag == 0)
+    out = np.full(a.shape, bad, dtype=np.int64)
+    out[ok] = r[ok].astype(np.int64)
+    return out.tolist()
+
+
+def matrix(x, bad=NOTINT):
+    """a returned 2-D array as list of rows of ints; [] if it is not a 2-D array"""
+    a = as_array(x)
+    return cells(a, bad) if a is not None and a.ndim == 2 else []
+
+
+def vec(x, bad=NOINDEX):
+    """a returned vector as list of ints; None if it is not a 1-D array"""
+    a = as_array(x)
+    return cells(a, bad) if a is not None and a.ndim == 1 else None
+
+
+def raw_vec(x):
+    """a returned vector as list of its values as they are (fronts' values may be fractions of a unit); None if not 1-D"""
+    a = as_array(x)
+    try:
+        return a.tolist() if a is not None and a.ndim == 1 else None
+    except Exception:
+        return None
+
+
+def pair(ret, n=2):
+    """a returned pair (n-tuple) -> its members; Nones if it is not one"""
+    if isinstance(ret, (tuple, list)) and len(ret) == n:
+        return tuple(ret)
+    return (None,) * n
+
+
+def val(c, unit=1):
+    """a value of fronts in units of the amplitude; 99 if it is not a whole multiple (or not a number)"""
+    try:
+        return cell(c / unit)
+    except Exception:
+        return NOTINT
 
 
 # ------------------------------------------------------------------------------------------------
@@ -193,12 +298,12 @@ def word_records(words_signed, form="int16"):
     arg, given = word_argument(words_signed, form)
     try:
         out = spikeglx.split_sync(arg)
-        out = np.asarray(out)
-        ok = out.ndim == 2 and out.shape[0] == len(words_signed)
-        for i, w in enumerate(given):
-            recs.append({"kind": "word", "w": int(w), "lines": [int(v) for v in out[i]] if ok else [], "exc": "", "form": form})
-    except Exception as e:
-        recs = [{"kind": "word", "w": int(w), "lines": [], "exc": type(e).__name__, "form": form} for w in given]
+    except LIBEXC as e:
+        return [{"kind": "word", "w": int(w), "lines": [], "exc": type(e).__name__, "form": form} for w in given]
+    rows = matrix(out)                  # [] unless 2-D; a cell that is not a whole number reads as 99
+    ok = len(rows) == len(given)
+    for i, w in enumerate(given):
+        recs.append({"kind": "word", "w": int(w), "lines": rows[i] if ok else [], "exc": "", "form": form})
     return recs
 
 
@@ -223,7 +328,7 @@ class Shared:
                 self.sr = self.cm.__enter__()
             else:
                 raise ValueError(via)
-        except Exception as e:
+        except LIBEXC as e:
             self.exc = type(e).__name__
 
     def close(self):
@@ -232,7 +337,7 @@ class Shared:
                 self.cm.__exit__(None, None, None)
             elif self.sr is not None:
                 self.sr.close()
-        except Exception:
+        except LIBEXC:
             pass
 
 
@@ -266,26 +371,28 @@ def read_record(binfile, words, diffs, thr, how="read_sync", sl=None, shared=Non
         elif how == "fp0":            # no floor removal: the voltage itself is thresholded (diffs = raw counts)
             rows = sr.read_sync(sl, floor_percentile=0, **kw)
         elif how == "read":           # the sync returned alongside the data by Reader.read
-            rows = sr.read(nsel=sl, csel=slice(None), sync=True)[1]
+            rows = pair(sr.read(nsel=sl, csel=slice(None), sync=True))[1]
         elif how == "read_pos":       # positional selection, channel selection and sync left at their defaults
-            rows = sr.read(sl)[1]
+            rows = pair(sr.read(sl))[1]
         elif how == "read_csel":      # a channel selection concerns the data half only
-            rows = sr.read(nsel=sl, csel=[1, 0], sync=True)[1]
+            rows = pair(sr.read(nsel=sl, csel=[1, 0], sync=True))[1]
         elif how == "read_default":
-            rows = sr.read()[1]
+            rows = pair(sr.read())[1]
         elif how == "samples":
-            rows = sr.read_samples(sl.start, sl.stop)[1]
+            rows = pair(sr.read_samples(sl.start, sl.stop))[1]
         elif how == "module":         # the module-level function opens a Reader of its own
-            rows = spikeglx.read(binfile, sl.start, sl.stop)[1]
+            rows = pair(spikeglx.read(binfile, sl.start, sl.stop), 3)[1]      # data, sync, metadata
         elif how == "digital":
             rows = sr.read_sync_digital(sl)
         else:
             raise tlc.TLCError(f"unknown read api {how}")
-        rec["rows"] = [[int(v) for v in r] for r in np.asarray(rows)]
-        rec["nonint"] = bool(np.any(np.asarray(rows) != np.round(np.asarray(rows))))
+        # whatever came back: [] unless it is a 2-D array (then no row per sample); a cell that is not 0 / 1 / a whole number reads
+        # as 99 (not a line level)
+        rec["rows"] = matrix(rows)
+        rec["nonint"] = any(NOTINT in r for r in rec["rows"])
     except tlc.TLCError:
         raise
-    except Exception as e:
+    except LIBEXC as e:
         rec["exc"] = sh.exc or type(e).__name__
     finally:
         if own:
@@ -299,41 +406,78 @@ class IndexShape(Exception):
     """the index array returned for a 2-D input is not [2, number of events]: args[0] = the clause that speaks about it"""
 
 
+NOFRONT = [[NOINDEX, NOINDEX, 0]]        # reading of a result of fronts that is not (index array, values): no event of any train
+NOEDGE = [[NOINDEX, NOINDEX]]            # the same for rises / falls
+
+
+def tl_of(ind, what, time_axis_first):
+    """index array [2, n] returned for a 2-D input -> (sample indices, 1-based lines) as lists of ints; an entry that is not a
+    whole number reads as NOINDEX"""
+    ind = as_array(ind)
+    if ind is None or ind.ndim != 2 or ind.shape[0] != 2:
+        raise IndexShape(what)
+    if ind.dtype.kind in "iu" and ind.size <= 128:       # the usual case, short trains: plain Python is quicker
+        a, b = ([v if -BIG < v < BIG else NOINDEX for v in r] for r in ind.tolist())
+    else:
+        a, b = cells(ind[0], NOINDEX), cells(ind[1], NOINDEX)
+    t, l = (a, b) if time_axis_first else (b, a)
+    return t, [v + 1 if v != NOINDEX else NOINDEX for v in l]
+
+
+def kept(t, l, want):
+    """events on the lines looked at; an event whose index is not an index is nobody's: kept"""
+    return want is None or l in want or NOINDEX in (t, l)
+
+
+def events3(ret, time_axis_first, want=None, unit=1):
+    """what fronts returned for a 2-D input -> [[t, l, v]] on the lines `want` (NOFRONT if it is not index array + values)"""
+    try:
+        ind, sign = pair(ret)
+        t, l = tl_of(ind, "Fronts", time_axis_first)
+        sign = raw_vec(sign)
+        if sign is None or len(sign) != len(t):       # one value per event
+            raise IndexShape("Fronts")
+    except IndexShape:
+        return [list(r) for r in NOFRONT]
+    return [[a, b, val(c, unit)] for a, b, c in zip(t, l, sign) if kept(a, b, want)]
+
+
+def events2(ret, what, time_axis_first, want=None):
+    """what rises / falls returned for a 2-D input -> [[t, l]] on the lines `want` (NOEDGE if it is not an index array)"""
+    try:
+        t, l = tl_of(ret, what, time_axis_first)
+    except IndexShape:
+        return [list(r) for r in NOEDGE]
+    return [[a, b] for a, b in zip(t, l) if kept(a, b, want)]
+
+
 def fronts_on(arr, axis, step, lines, time_axis_first, unit=1, falls_first=False):
     """real fronts / rises / falls on a 2-D array -> lists of [t, l(1-based), v] restricted to `lines`.
     `unit`: amplitude the values of fronts are expressed in (a value that is not a whole multiple reads as 99);
-    `falls_first`: the three functions are called on the same array object in the opposite order"""
+    `falls_first`: the three functions are called on the same array object in the opposite order.
+    A result that is not of the documented form reads as NOFRONT / NOEDGE (no clause holds on it)"""
     from ibldsp import utils
     want = set(lines)
 
-    def tl(ind, what):
-        ind = np.asarray(ind)
-        if ind.ndim != 2 or ind.shape[0] != 2:
-            raise IndexShape(what)
-        t, l = (ind[0], ind[1]) if time_axis_first else (ind[1], ind[0])
-        return t, l + 1
-
-    def val(c):
-        v = c / unit
-        return int(v) if v == int(v) else 99
-
     def f_fronts():
-        ind, sign = utils.fronts(arr, axis=axis, step=step)
-        t, l = tl(ind, "Fronts")
-        return [[int(a), int(b), val(c)] for a, b, c in zip(t, l, sign) if int(b) in want]
+        return events3(utils.fronts(arr, axis=axis, step=step), time_axis_first, want, unit)
 
     def f_rises():
-        t, l = tl(utils.rises(arr, axis=axis, step=step), "Rises")
-        return [[int(a), int(b)] for a, b in zip(t, l) if int(b) in want]
+        return events2(utils.rises(arr, axis=axis, step=step), "Rises", time_axis_first, want)
 
     def f_falls():
-        t, l = tl(utils.falls(arr, axis=axis, step=-step), "Falls")
-        return [[int(a), int(b)] for a, b in zip(t, l) if int(b) in want]
+        return events2(utils.falls(arr, axis=axis, step=-step), "Falls", time_axis_first, want)
     if falls_first:
         fa, ri, fr = f_falls(), f_rises(), f_fronts()
     else:
         fr, ri, fa = f_fronts(), f_rises(), f_falls()
     return fr, ri, fa
+
+
+def is_matrix(rows, n):
+    """what a read returned is a 2-D array with one row per sample read"""
+    a = as_array(rows)
+    return a is not None and a.ndim == 2 and a.shape[0] == n
 
 
 def ttl_record_from_file(binfile, words, aux, lines, sl=None, how="read_sync"):
@@ -347,11 +491,14 @@ def ttl_record_from_file(binfile, words, aux, lines, sl=None, how="read_sync"):
         sr = spikeglx.Reader(binfile)
         try:
             sl = slice(None) if sl is None else sl
-            rows = sr.read_sync(sl) if how == "read_sync" else sr.read(nsel=sl, sync=True)[1]
+            rows = sr.read_sync(sl) if how == "read_sync" else pair(sr.read(nsel=sl, sync=True))[1]
         finally:
             sr.close()
-        rec["fronts"], rec["rises"], rec["falls"] = fronts_on(rows, 0, 1, lines, True)
-    except Exception as e:
+        if is_matrix(rows, len(words)):
+            rec["fronts"], rec["rises"], rec["falls"] = fronts_on(rows, 0, 1, lines, True)
+        else:       # nothing fronts could be run on: no event of the train is recovered
+            rec["fronts"], rec["rises"], rec["falls"] = NOFRONT, NOEDGE, NOEDGE
+    except LIBEXC as e:
         rec["exc"] = type(e).__name__
     return rec
 
@@ -385,7 +532,7 @@ def ttl_record_direct(levels, amp, step, variant):
             a.setflags(write=False)
         rec["fronts"], rec["rises"], rec["falls"] = fronts_on(a, ax, step * unit, rec["lines"], tf, unit=unit,
                                                              falls_first=(variant // 3) % 2 == 1)
-    except Exception as e:
+    except LIBEXC as e:
         rec["exc"] = type(e).__name__
     return rec
 
@@ -410,8 +557,13 @@ def compare(obs, exp, what):
     returns the name of the first property-layer clause that is false, or ''"""
     fr, ri, fa = obs
     F, R, D = exp
-    if len(set(map(tuple, fr))) != len(fr) or len(set(map(tuple, ri))) != len(ri) or len(set(map(tuple, fa))) != len(fa):
-        return "NoDuplicate"
+
+    for evs in (fr, ri, fa):
+        if len(set(map(tuple, evs))) != len(evs):
+            # entries that are not events at all (NOINDEX) are judged by the clause of their list below
+            real = [tuple(e) for e in evs if NOINDEX not in e[:2]]
+            if len(set(real)) != len(real):
+                return "NoDuplicate"
     if set(map(tuple, fr)) != F:
         return "Fronts"
     if set(map(tuple, ri)) != R:
@@ -434,24 +586,32 @@ def direct_calls(levels, ev, idx):
 
     def add(label, f, exp=None):
         try:
-            out.append((label, compare(f(), exp or (F, R, D), "")))
+            obs = f()
         except IndexShape as e:
             out.append((label, e.args[0]))
-        except Exception as e:
+        except LIBEXC as e:
             out.append((label, "Raised:" + type(e).__name__))
+        else:
+            out.append((label, compare(obs, exp or (F, R, D), "")))
 
     def per_line(l):
         return {f for f in F if f[1] == l + 1}, {r for r in R if r[1] == l + 1}, {d for d in D if d[1] == l + 1}
+
+    def edges_1d(ret, l):
+        """what rises / falls returned for a vector -> [[t, l]]; NOEDGE if it is not a vector of indices"""
+        t = vec(ret)
+        return [[a, l + 1] for a in t] if t is not None else [list(r) for r in NOEDGE]
 
     def one_d(x, l, unit=1, step=None, **kw):
         """fronts / rises / falls on a vector; step None = the functions' own defaults"""
         ks = {} if step is None else {"step": step}
         kf = {} if step is None else {"step": -step}
-        ind, sign = utils.fronts(x, **kw, **ks)
-        ok = np.asarray(ind).ndim == 1
-        fr = [[int(t), l + 1, int(s / unit) if s / unit == int(s / unit) else 99] for t, s in zip(ind, sign)] if ok else [[-1, -1, 0]]
-        ri = [[int(t), l + 1] for t in utils.rises(x, **kw, **ks)]
-        fa = [[int(t), l + 1] for t in utils.falls(x, **kw, **kf)]
+        ind, sign = pair(utils.fronts(x, **kw, **ks))
+        ind, sign = vec(ind), raw_vec(sign)
+        ok = ind is not None and sign is not None and len(ind) == len(sign)
+        fr = [[t, l + 1, val(v, unit)] for t, v in zip(ind, sign)] if ok else [[-1, -1, 0]]
+        ri = edges_1d(utils.rises(x, **kw, **ks), l)
+        fa = edges_1d(utils.falls(x, **kw, **kf), l)
         return fr, ri, fa
 
     # 0 / 1 trains as callers hold them: signed and floating types, and the unsigned / boolean ones np.unpackbits or a comparison
@@ -469,11 +629,7 @@ def direct_calls(levels, ev, idx):
 
     # defaults (axis=-1, step=1 / -1) as a caller would write them
     def defaults():
-        ind, sign = utils.fronts(at)
-        fr = [[int(t), int(l) + 1, int(s)] for l, t, s in zip(ind[0], ind[1], sign)]
-        ri = [[int(t), int(l) + 1] for l, t in zip(*utils.rises(at))]
-        fa = [[int(t), int(l) + 1] for l, t in zip(*utils.falls(at))]
-        return fr, ri, fa
+        return events3(utils.fronts(at), False), events2(utils.rises(at), "Rises", False), events2(utils.falls(at), "Falls", False)
     add("2d-defaults-" + dt.__name__, defaults)
     # 1-D, line by line
     for l in range(nl):
@@ -489,8 +645,8 @@ def direct_calls(levels, ev, idx):
     Fl = [[t, l, p] for t, l, p in F]
 
     def analog_tl(v, s):
-        ri = [[int(t), int(l) + 1] for t, l in zip(*utils.rises(v, axis=0, step=s, analog=True))]
-        fa = [[int(t), int(l) + 1] for t, l in zip(*utils.falls(v, axis=0, step=s, analog=True))]
+        ri = events2(utils.rises(v, axis=0, step=s, analog=True), "Rises", True)
+        fa = events2(utils.falls(v, axis=0, step=s, analog=True), "Falls", True)
         return Fl, ri, fa
     add(f"analog-step{s}", lambda: analog_tl(v, s))
 
@@ -543,8 +699,8 @@ def direct_calls(levels, ev, idx):
         ax = [-1, 1][(idx // 8) % 2]
 
         def analog_lt():
-            ri = [[int(t), int(l) + 1] for l, t in zip(*utils.rises(vt, axis=ax, step=s, analog=True))]
-            fa = [[int(t), int(l) + 1] for l, t in zip(*utils.falls(vt, axis=ax, step=s, analog=True))]
+            ri = events2(utils.rises(vt, axis=ax, step=s, analog=True), "Rises", False)
+            fa = events2(utils.falls(vt, axis=ax, step=s, analog=True), "Falls", False)
             return Fl, ri, fa
         add(f"analog-step{s}-axis{ax}", analog_lt)
         for l in range(nl):
@@ -552,8 +708,8 @@ def direct_calls(levels, ev, idx):
             Fq, Rq, Dq = per_line(l)
 
             def analog_1d():
-                return ([[t, q, p] for t, q, p in Fq], [[int(t), l + 1] for t in utils.rises(xl, step=s, analog=True)],
-                        [[int(t), l + 1] for t in utils.falls(xl, step=s, analog=True)])
+                return ([[t, q, p] for t, q, p in Fq], edges_1d(utils.rises(xl, step=s, analog=True), l),
+                        edges_1d(utils.falls(xl, step=s, analog=True), l))
             add(f"analog-step{s}-1d-line{l + 1}", analog_1d, (Fq, Rq, Dq))
     elif r == 6:
         # analog=True on float32 and on integers
@@ -632,16 +788,17 @@ class Batch:
                 lev = np.asarray(c["x"])
                 n, nl = lev.shape
                 # ---- imec (every third train through Reader.read, the others through read_sync)
+                # the harness compares its own integer reading of what came back (`matrix`); the real fronts get the object itself
                 try:
                     if shi.exc:
                         raise RuntimeError
-                    rows = sri.read(nsel=slice(*s["i"]), sync=True)[1] if j % 3 == 2 else sri.read_sync(slice(*s["i"]))
-                    cl = layout_clause(rows, n, 16) or lines_clause(rows, lev, s["mi"])
+                    rows = pair(sri.read(nsel=slice(*s["i"]), sync=True))[1] if j % 3 == 2 else sri.read_sync(slice(*s["i"]))
+                    cl = layout_clause(rows, n, 16) or lines_clause(matrix(rows), lev, s["mi"])
                     if not cl:
                         cl = compare(fronts_on(rows, 0, 1, s["mi"], True), expected_sets(c["ev"], s["mi"]), "")
                 except IndexShape as e:
                     cl = e.args[0]
-                except Exception as e:
+                except LIBEXC as e:
                     cl = "Raised:" + (shi.exc or type(e).__name__)
                 if cl:
                     bad.append(("imec", cl, c, s))
@@ -651,16 +808,18 @@ class Batch:
                         raise RuntimeError
                     rows = srn.read_sync(slice(*s["n"]), **kw)
                     cl = layout_clause(rows, s["pre"] + n, 16 + xa)
-                    if not cl and np.any(rows[:s["pre"], 16:] != 0):
-                        cl = "AnalogThreshold"
                     if not cl:
-                        rows = rows[s["pre"]:]
-                        cl = lines_clause(rows, lev, s["mn"])
+                        m = np.array(matrix(rows), dtype=np.int64).reshape(s["pre"] + n, 16 + xa)
+                        if np.any(m[:s["pre"], 16:] != 0):
+                            cl = "AnalogThreshold"
+                    if not cl:
+                        rows = as_array(rows)[s["pre"]:]
+                        cl = lines_clause(m[s["pre"]:], lev, s["mn"])
                     if not cl:
                         cl = compare(fronts_on(rows, 0, 1, s["mn"], True), expected_sets(c["ev"], s["mn"]), "")
                 except IndexShape as e:
                     cl = e.args[0]
-                except Exception as e:
+                except LIBEXC as e:
                     cl = "Raised:" + (shn.exc or type(e).__name__)
                 if cl:
                     bad.append(("nidq", cl, c, s))
@@ -672,8 +831,8 @@ class Batch:
 
 
 def layout_clause(rows, n, ncol):
-    rows = np.asarray(rows)
-    if rows.ndim != 2 or rows.shape[0] != n:
+    rows = as_array(rows)
+    if rows is None or rows.ndim != 2 or rows.shape[0] != n:
         return "OneRowPerSample"
     if rows.shape[1] != ncol:
         return "RowLayout"
@@ -681,9 +840,11 @@ def layout_clause(rows, n, ncol):
 
 
 def lines_clause(rows, lev, lmap):
-    """the lines the train was written on read back as the train"""
+    """the lines the train was written on read back as the train; rows = the harness's integer reading (`matrix`) of the matrix
+    returned (a value that is not a whole number reads as 99: not the level written)"""
+    rows = np.asarray(rows, dtype=np.int64).reshape(len(lev), -1)
     for k, l in enumerate(lmap):
-        if not np.array_equal(np.asarray(rows)[:, l - 1], lev[:, k]):
+        if not np.array_equal(rows[:, l - 1], lev[:, k]):
             return "DigitalFirst" if l <= 16 else "AnalogThreshold"
     return ""
 
@@ -967,23 +1128,30 @@ def second_long_reads(ctx, folder, rng):
         try:
             sr = spikeglx.Reader(f)
             try:
-                rows = np.asarray(sr.read_sync(slice(0, n)))
+                rows = sr.read_sync(slice(0, n))
             finally:
                 sr.close()
-        except Exception as e:
+        except LIBEXC as e:
             ctx.violation("sync:Raised:" + type(e).__name__, f"{what} raised {type(e).__name__}: {e}"[:300], sc)
             continue
-        if rows.shape != (n, 16 + lay["xa"]):
-            ctx.violation("sync:OneRowPerSample", f"{what}: shape {rows.shape}", sc)
+        if layout_clause(rows, n, 16 + lay["xa"]):
+            shape = getattr(as_array(rows), "shape", None)
+            ctx.violation("sync:OneRowPerSample", f"{what}: shape {shape}", sc)
             continue
+        # the harness's integer reading of the matrix returned (a value that is not a whole number reads as 99)
+        rows = np.array(matrix(rows), dtype=np.int64).reshape(n, 16 + lay["xa"])
         bits = ((words[:, None].astype(np.int64) >> np.arange(16)[None, :]) & 1)
         if not np.array_equal(rows[:, :16], bits):
             ctx.violation("sync:DigitalFirst", f"{what}: the digital lines are not the bits of the words", sc)
         elif not np.array_equal(rows[:, 16:], lev):
             bad = np.flatnonzero(np.any(rows[:, 16:] != lev, axis=1))
+            try:        # for the message only
+                nrec = len(vec(pair(utils.fronts(rows[:, 16].astype(np.int8)))[0]) or [])
+            except LIBEXC as e:
+                nrec = f"fronts raised {type(e).__name__}"
             ctx.violation("ttl:AnalogThreshold", f"{what}: the analog lines differ from the levels written at {bad.size} samples, first "
                           f"at {bad[:3].tolist()} ({int(np.sum(np.diff(lev[:, 0]) != 0))} fronts written on the first line, "
-                          f"{len(utils.fronts(rows[:, 16].astype(np.int8))[0])} recovered)", sc)
+                          f"{nrec} recovered)", sc)
 
 
 def long_train_records(ctx, folder, rng):
